@@ -570,6 +570,73 @@ def d31():
     return with_tree(run)
 
 
+def d32():
+    """Type=- in a .names/.Links block for a walked file does not hide it (only the .cap path treats - like X)"""
+    def run(d):
+        os.mkdir(os.path.join(d, "dir"))
+        for n in ("a.txt", "b.txt"):
+            open(os.path.join(d, "dir", n), "w").write("x")
+        open(os.path.join(d, "dir", ".names"), "w").write("Path=./b.txt\nType=-\n")
+        cfg = make_config(root=d, conf="conf/pygopherd.conf")
+        cfg.set("handlers.dir.DirHandler", "cachetime", "0")
+        out, esc, log = request(b"/dir\r\n", cfg)
+        return b"b.txt" in out, f"reply={out[:120]!r}"
+
+    return with_tree(run)
+
+
+def d34():
+    """HEAD for a missing selector gets the HTML error body"""
+    cfg = make_config(conf="conf/pygopherd.conf")
+    out, esc, log = request(b"HEAD /nonexistent HTTP/1.0\r\n\r\n", cfg)
+    head, _, body = out.partition(b"\r\n\r\n")
+    return bool(body), f"status={head.splitlines()[:1]} body bytes={len(body)}"
+
+
+def d36():
+    """an entry with a host but no port: Gopher renders this server's port, the URL protocols render port 70"""
+    def run(d):
+        os.mkdir(os.path.join(d, "m"))
+        open(os.path.join(d, "m", "gophermap"), "w").write("1Elsewhere\t/sel\tother.example\n")
+        cfg = make_config(root=d, conf="conf/pygopherd.conf")
+        g, _, _ = request(b"/m\r\n", cfg)
+        h, _, _ = request(b"GET /m HTTP/1.0\r\n\r\n", cfg)
+        gport = g.split(b"\t")[3].split(b"\r")[0] if g.count(b"\t") >= 3 else b"?"
+        import re as _re
+        m = _re.search(rb"gopher://other\.example:(\d+)/", h)
+        hport = m.group(1) if m else b"?"
+        return gport != hport, f"gopher port {gport!r}, http port {hport!r}"
+
+    return with_tree(run)
+
+
+def d37():
+    """an entry without a type: Gopher renders type 0, the URL protocols render gopher://host:70/None/sel"""
+    def run(d):
+        os.mkdir(os.path.join(d, "dir"))
+        open(os.path.join(d, "dir", "a.txt"), "w").write("x")
+        open(os.path.join(d, "dir", ".Links"), "w").write("Name=NoType\nPath=/foo\nHost=other.example\nPort=70\n")
+        cfg = make_config(root=d, conf="conf/pygopherd.conf")
+        cfg.set("handlers.dir.DirHandler", "cachetime", "0")
+        h, _, _ = request(b"GET /dir HTTP/1.0\r\n\r\n", cfg)
+        return b"/None/foo" in h, f"http link: {[l for l in h.splitlines() if b'other.example' in l][:1]!r}"
+
+    return with_tree(run)
+
+
+def d38():
+    """names that merely start with the WAP prefix (/wapiti.txt) are taken for WAP requests over HTTP"""
+    def run(d):
+        open(os.path.join(d, "wapiti.txt"), "w").write("the wapiti file\n")
+        open(os.path.join(d, "iti.txt"), "w").write("a different file\n")
+        cfg = make_config(root=d, conf="conf/pygopherd.conf")
+        g, _, _ = request(b"/wapiti.txt\r\n", cfg)
+        h, _, _ = request(b"GET /wapiti.txt HTTP/1.0\r\n\r\n", cfg)
+        return b"the wapiti file" not in h, f"gopher={g[:20]!r} http body has wapiti: {b'the wapiti file' in h}, has iti: {b'a different file' in h}"
+
+    return with_tree(run)
+
+
 ALL = {k: v for k, v in list(globals().items()) if k.startswith("d") and k[1:2].isdigit() and callable(v)}
 ALL.pop("d8", None)
 
